@@ -21,12 +21,13 @@ SPECDIR = os.path.join(vlib.SPEC, 'query')
 # place where the real planner was found to differ from the definition; the binding confirms every one of them on the
 # real code in every run.  When a defect is repaired in /repo, remove its rule here (the check reports a rule that no
 # longer reproduces as an infrastructure problem, naming it).
-CODE_DEVIATIONS = ['where', 'emptywhere', 'prec', 'intersect', 'chain3', 'tagsv2', 'attrless_le', 'distinct']
+CODE_DEVIATIONS = ['where', 'emptywhere', 'prec', 'intersect', 'chain3', 'drop3', 'tagsv2', 'attrless_le', 'distinct']
 
 SIGNATURE = {
     'emptywhere': 'sql-invalid|selector-without-attribute-term-renders-empty-where-group',
     'chain3': 'sql-invalid|three-selectors-reference-missing-timestamp_ns',
     'tagsv2': 'sql-invalid|tags-values-v2-select-ungrouped-column',
+    'drop3': 'wrong-result|third-selector-after-and-is-never-planned',
     'where': 'wrong-result|where-prefilter-drops-spans-matched-only-by-duration',
     'prec': 'wrong-result|and-or-without-parentheses-is-right-nested',
     'intersect': 'wrong-result|selector-and-intersects-span-rows-and-max-timestamp',
@@ -38,6 +39,8 @@ WHAT = {
                   'attribute) renders `... WHERE (<bounds>) and ()`: attr_condition.go AndWhere(sql.Or(a.where...)) with an empty list',
     'chain3': 'three selectors `{..} op {..} op {..}`: planner.go planComplex nests a combination as an operand of complex_and/'
               'complex_or.go, which append max(timestamp_ns) to a SELECT whose source only has max_timestamp_ns',
+    'drop3': 'planner.go planComplex: in `S1 op S2 && S3` the third selector is handed to simpleExpressionPlanner.addOp, which does '
+             'nothing: S3 is never planned (visible today only through which SQL error is raised, because every three-selector statement is invalid)',
     'tagsv2': 'select_tags_planner.go / select_values_planner.go select `key` (`val`) next to GROUP BY trace_id, span_id '
               'without an aggregate function: every /api/v2/search/tags|tag/X/values request with a non-empty selector fails',
     'where': 'attr_condition.go puts only attribute/name terms into the WHERE pre-filter: a span that satisfies the boolean '
@@ -106,15 +109,34 @@ def rand_case(rnd):
     return {'q': q, 'db': db}
 
 
+def tla_case(c):
+    q = lambda x: '"%s"' % x
+
+    def term(t):
+        if t is FILL:
+            return 'Fill'
+        return 'RT(%s,%s,%s,%s,%d,%s)' % (q(t['k']), q(t['key']), q(t['op']), q(t['cs']), t['cn'], q(t['pfx']))
+
+    def sel(s):
+        a = s['agg']
+        agg = 'NoAgg' if a is NOAGG else 'RA(%s,%s,%s,%d)' % (q(a['fn']), q(a['attr']), q(a['op']), a['c'])
+        return 'RSel(%s,<<%s>>,%s)' % (q(s['sh']), ','.join(term(t) for t in s['t']), agg)
+    qq = c['q']
+    qs = 'Query(%s,<<%s>>,<<%s>>,%d,%d,%d,%s)' % (q(qq['kind']), ','.join(sel(s) for s in qq['sels']), ','.join(q(o) for o in qq['ops']),
+                                                 qq['from'], qq['to'], qq['limit'], q(qq['vkey']))
+    db = '<<%s>>' % ','.join('<<%s>>' % ','.join('Span(%s,%s,%s,%d,%d)' % (q(s['a']), q(s['b']), q(s['nm']), s['dur'], s['ts']) for s in tr) for tr in c['db'])
+    return 'RC(%s,%s)' % (qs, db)
+
+
 def run_module(layers, thorough, mods, seed, rand_cases, flags):
     lines = ['---- MODULE MC_TraceQLRun ----', 'EXTENDS MC_TraceQL',
              'cDay == <<0, 0, 1, 1, 1, 2>>',
              'cLayers == %s' % vlib.tla_value(set(layers)),
              'cMods == %s' % vlib.tla_value(mods),
              'cFlags == %s' % vlib.tla_value(set(flags)),
-             'cRand == <<']
-    lines.append(',\n'.join(vlib.tla_value(c) for c in rand_cases))
-    lines += ['>>', '====', '']
+             'cRand == {']
+    lines.append(',\n'.join(tla_case(c) for c in rand_cases))
+    lines += ['}', '====', '']
     cfg = '''SPECIFICATION Spec
 CONSTANTS
   DayOfTick <- cDay
@@ -136,13 +158,19 @@ def model_check(tier, seed, sd):
     mods = ({'term': 1, 'bool': 2, 'agg': 1, 'chain': 1, 'win': 1, 'rand': 1} if not thorough else
             {'term': 1, 'bool': 5, 'agg': 4, 'chain': 3, 'win': 1, 'rand': 1})
     rnd = random.Random(seed * 1000003 + 11)
-    rand_cases = [rand_case(rnd) for _ in range(2500 if not thorough else 25000)]
+    rand_cases = [rand_case(rnd) for _ in range(1000 if not thorough else 8000)]
     mod, cfg = run_module(layers, thorough, mods, seed, rand_cases, CODE_DEVIATIONS)
     mp, cp = os.path.join(sd, 'MC_TraceQLRun.tla'), os.path.join(sd, 'MC_TraceQLRun.cfg')
     open(mp, 'w').write(mod)
     open(cp, 'w').write(cfg)
-    res = vlib.tlc(SPECDIR, 'MC_TraceQLRun.tla', 'MC_TraceQLRun.cfg', timeout=420 if not thorough else 2400,
-                   copy_extra=[mp, cp], heap='6g' if thorough else None)
+    res = None
+    for attempt in (1, 2):
+        res = vlib.tlc(SPECDIR, 'MC_TraceQLRun.tla', 'MC_TraceQLRun.cfg', timeout=420 if not thorough else 2400,
+                       copy_extra=[mp, cp], heap='6g' if thorough else None)
+        # a JVM killed from outside (memory pressure on a shared machine) leaves a truncated log without any error: retry once
+        if res.get('finished') or res['violated'] or 'Error' in res['out'] or attempt == 2:
+            break
+        vlib.tlc_cleanup(res)
     try:
         out = res['out']
         if res['violated']:
@@ -242,16 +270,6 @@ def run(tier):
         infra = [m for m in mism if m['verdict'] == 'infra']
         if infra:
             raise vlib.Infra('chsql cannot run a generated statement (%d cases), e.g. %s :: %s' % (len(infra), infra[0]['traceql'], infra[0].get('diff')))
-        notrep = [m for m in mism if m['verdict'] == 'not_reproduced']
-        if notrep:
-            ex = {}
-            for m in notrep:
-                det = m.get('detail') or {}
-                for fl in ((det.get('case') or {}).get('explain') or ['?']):
-                    ex[fl] = ex.get(fl, 0) + 1
-            raise vlib.Infra('%d differences between PlanEval and Eval found by TLC do not reproduce against the real planner '
-                             '(the answer conforms to the definition); deviation rules involved: %s. If the planner was repaired, remove the '
-                             'rule from CODE_DEVIATIONS / TraceQLSem!AllFlags. Example: %s' % (len(notrep), ex, notrep[0]['traceql']))
         # vacuity
         need = ['shape:' + s for ss in SHAPES.values() for s in ss] + ['shape:empty'] + \
                ['agg:' + a for a in ('count', 'avg', 'min', 'max', 'sum')] + ['chain:&&', 'chain:||', 'kind:tags', 'kind:values'] + \
@@ -312,6 +330,19 @@ def run(tier):
                 add(sig, 'the answer of the real planner differs from the definition AND from the plan model: %s -> %s; expected one of %s with spans %s'
                     % (m['traceql'], what, m['detail']['case']['def']['seqs'][:4], m['detail']['case']['def']['ms']), m,
                     'difference between the real answer and Eval not predicted by the plan model')
+        # a difference predicted by the plan model that the real planner does not show is an infrastructure problem
+        # (the model misrepresents the code) -- unless the real planner ALSO gives answers that contradict the
+        # definition and that the model does not predict: those are verdicts and come first.
+        notrep = [m for m in mism if m['verdict'] == 'not_reproduced']
+        if notrep and not any(v['signature'].startswith('unexplained|') for v in viols):
+            ex = {}
+            for m in notrep:
+                det = m.get('detail') or {}
+                for fl in ((det.get('case') or {}).get('explain') or ['?']):
+                    ex[fl] = ex.get(fl, 0) + 1
+            raise vlib.Infra('%d differences between PlanEval and Eval found by TLC do not reproduce against the real planner '
+                             '(the answer conforms to the definition); deviation rules involved: %s. If the planner was repaired, remove the '
+                             'rule from CODE_DEVIATIONS / TraceQLSem!AllFlags. Example: %s' % (len(notrep), ex, notrep[0]['traceql']))
         samples = [s for r in results for s in r.get('samples', [])][:2]
         samples = [{'traceql': s['traceql'], 'stored_through': s['path'], 'data': s['detail']['data'],
                     'expected_seqs': s['detail']['case']['def']['seqs'], 'observed_seq': s['detail']['observed']['seq'],
@@ -321,7 +352,8 @@ def run(tier):
                'samples': samples or [{'note': 'no sample'}], 'exhaustive': True,
                'distinct_nontrivial': sum(r['distinct'] for r in results), 'evaluations': ran,
                'model_check': mc, 'verdicts': counts, 'verdicts_by_layer': by_layer, 'stored_through': paths,
-               'confirmed_deviation_rules': by_flag, 'concretisation_variants': sum(r['variants'] for r in results),
+               'confirmed_deviation_rules': by_flag, 'predicted_but_not_reproduced': len(notrep),
+               'concretisation_variants': sum(r['variants'] for r in results),
                'grammar_features_exercised': features,
                'driver_wall_s': round(max(r['wall_s'] for r in results), 1)}
         return {'level': 'model_checking', 'coverage': cov, 'violations': viols,
